@@ -406,6 +406,7 @@ func runC10(c *Ctx, r *Report) {
 		}
 	}
 	c10InjectiveKeys(c, r)
+	c10ResetCoversIngest(c, r)
 }
 
 // readsEntryKeys: does fn (or its static mlrval callees, depth 3) load MlrmapEntry.Key?
@@ -622,4 +623,105 @@ func c10InjectiveKeys(c *Ctx, r *Report) {
 		}
 	}
 	r.Floor("R10.6", "joined-key builders", n, 5)
+}
+
+// ---- R10.5 ------------------------------------------------------------------
+// Reset gives back the state the constructor gives: every field Ingest writes
+// is written by Reset.
+func c10ResetCoversIngest(c *Ctx, r *Report) {
+	r.Rule("R10.5", "Reset covers Ingest: for every accumulator type that has both an Ingest and a Reset method, each field of the receiver that Ingest (or a method it calls on the receiver) stores to is also stored by Reset (or Reset delegates to the Reset / constructor of the sub-accumulators holding it) — a field left out carries the previous window's or record's data into the next")
+	n := 0
+	type tinfo struct {
+		ingest, reset *ssa.Function
+	}
+	byType := map[string]*tinfo{}
+	for _, fn := range c.ModuleFunctions() {
+		if fn.Pkg == nil || fn.Signature.Recv() == nil {
+			continue
+		}
+		pp := fn.Pkg.Pkg.Path()
+		if !(strings.Contains(pp, "/pkg/transformers")) {
+			continue
+		}
+		tn := fn.Signature.Recv().Type().String()
+		if byType[tn] == nil {
+			byType[tn] = &tinfo{}
+		}
+		switch fn.Name() {
+		case "Ingest":
+			byType[tn].ingest = fn
+		case "Reset":
+			byType[tn].reset = fn
+		}
+	}
+	storedFields := func(fn *ssa.Function) (map[string]bool, bool) {
+		out := map[string]bool{}
+		delegates := false
+		seen := map[*ssa.Function]bool{}
+		var visit func(f *ssa.Function, depth int)
+		visit = func(f *ssa.Function, depth int) {
+			if f == nil || f.Blocks == nil || seen[f] || depth > 2 || len(f.Params) == 0 {
+				return
+			}
+			seen[f] = true
+			recv := f.Params[0]
+			for _, b := range f.Blocks {
+				for _, in := range b.Instrs {
+					switch x := in.(type) {
+					case *ssa.Store:
+						if fa, ok := x.Addr.(*ssa.FieldAddr); ok && fa.X == recv {
+							st := fa.X.Type().Underlying().(*types.Pointer).Elem().Underlying().(*types.Struct)
+							out[st.Field(fa.Field).Name()] = true
+						}
+					case ssa.CallInstruction:
+						com := x.Common()
+						// methods called on the receiver itself
+						if sc := com.StaticCallee(); sc != nil && len(com.Args) > 0 && com.Args[0] == recv {
+							visit(sc, depth+1)
+						}
+						// delegation to a field's own Reset/Ingest (sub-accumulator): counts as covering that field
+						var target ssa.Value
+						if com.IsInvoke() {
+							target = com.Value
+						} else if len(com.Args) > 0 {
+							target = com.Args[0]
+						}
+						if ld, ok := target.(*ssa.UnOp); ok {
+							if fa, ok := ld.X.(*ssa.FieldAddr); ok && fa.X == recv {
+								st := fa.X.Type().Underlying().(*types.Pointer).Elem().Underlying().(*types.Struct)
+								out[st.Field(fa.Field).Name()] = true
+								delegates = true
+							}
+						}
+					}
+				}
+			}
+		}
+		visit(fn, 0)
+		return out, delegates
+	}
+	var names []string
+	for tn := range byType {
+		names = append(names, tn)
+	}
+	sort.Strings(names)
+	for _, tn := range names {
+		ti := byType[tn]
+		if ti.ingest == nil || ti.reset == nil {
+			continue
+		}
+		n++
+		ing, _ := storedFields(ti.ingest)
+		res, _ := storedFields(ti.reset)
+		var miss []string
+		for f := range ing {
+			if !res[f] {
+				miss = append(miss, f)
+			}
+		}
+		sort.Strings(miss)
+		r.Check(len(miss) == 0, "R10.5", SSAName(ti.reset), c.Rel(ti.reset.Pos()), fmt.Sprintf("resets %d field(s) written by Ingest", len(ing)),
+			fmt.Sprintf("%s does not reset %v, which Ingest writes: when the accumulator is reused (merge-fields, stats1 -w windows) the previous data leaks into the next result", SSAName(ti.reset), miss))
+	}
+	r.Floor("R10.5", "accumulator types with Ingest and Reset", n, 15)
 }
